@@ -302,6 +302,14 @@ fn gen_unamb(g: &mut Gen, kind: i128, year_abs_lt: i128) -> Vec<Item> {
         }
         out.push(f.clone());
     }
+    // a literal at the very start or the very end of the pattern, white space included (parse must not trim its input)
+    if !out.is_empty() {
+        let edge: Vec<char> = " \t\n\u{a0}|.".chars().collect();
+        if g.rng.chance(1, 6) { out.insert(0, Item::Lit(*g.rng.pick(&edge), 1)); }
+        if g.rng.chance(1, 6) { let c = *g.rng.pick(&edge);
+            let after_zone = matches!(out.last(), Some(Item::Field('X', _)) | Some(Item::Field('x', _)));
+            if !(after_zone && c == ':') { out.push(Item::Lit(c, 1)); } }
+    }
     out
 }
 /// every symbol x width in a fixed full context (date fields after yyyy-MM-dd, time fields after HH:mm:ss), on chosen values
